@@ -842,14 +842,15 @@ def Val.deepMKvs (m : Mode) : List (Bytes × Val) → List (Bytes × JV)
   | (k, v) :: kvs => (k, Val.deepM m v) :: Val.deepMKvs m kvs
 end
 
-/-- one level of JQValueToGoJQ (binopTypeSwitch, toArray, toString, toBoolean, isNull do this first);
-    a Go map has no member order: sorted -/
+/-- the specification's counterpart of JQValueToGoJQ: the view; a struct as a Go map (no member order) -/
+def DV.specShallow : DV → Val
+  | .struct fs => .obj (objOfList (fs.map (fun f => (f.1, Val.dv f.2))))
+  | d => specView d
+
+/-- one level of JQValueToGoJQ (binopTypeSwitch, toArray, toString, toBoolean, isNull do this first) -/
 def Val.shallowM (m : Mode) (v : Val) : Val :=
   match v with
-  | .dv d =>
-    (match (if m.impl then d.mToGoJQ else specView d) with
-     | .obj kvs => .obj (objOfList kvs)
-     | w => w)
+  | .dv d => if m.impl then d.mToGoJQ else d.specShallow
   | .garr xs => .arr (Val.ofJVs xs)
   | w => w
 
@@ -863,8 +864,15 @@ def funcLength (m : Mode) (v : Val) : Outcome Val :=
   match m.view v with
   | .null => .ok (.int 0)
   | .int i =>
-    -- func.go:318-322 `return -v` on a Go int: -(-2^63) overflows to -2^63
-    .ok (.int (if i ≥ 0 then i else if i == minInt && !(!m.impl && m.kMinInt && isDV v) then minInt else -i))
+    if i ≥ 0 then .ok (.int i)
+    else if i == minInt then
+      -- func.go:318-322 `return -v` on a Go int: -(-2^63) overflows to -2^63; on a *big.Int it is 2^63.
+      -- The view of a decode value is its tovalue, a Go int (ToGoJQValueFn normalises). A plain -2^63
+      -- inside an evaluation may be either (JQValueToNumber / JQValueToGoJQ hand out the *big.Int
+      -- un-normalised): the model declines.
+      if isDV v then .ok (.int (if m.kMinInt then -i else minInt))
+      else .err (.unmodelled "minint-representation")
+    else .ok (.int (-i))
   | .float f => .ok (.float (absBits f))
   | .str s => .ok (.int (chunks s).length)
   | .arr xs => .ok (.int xs.length)
